@@ -296,6 +296,10 @@ class Exec:
             return self.intr.any_truth(v)
         if isinstance(v, (ExcVal, FuncRef, BoundMethod, ClassRef, ExternalRef, EnumVal)):
             return True
+        if isinstance(v, Tagged):
+            if v[0] in ("set", "bytes"):
+                return len(v[1]) > 0
+            return True
         if isinstance(v, tuple):
             return len(v) > 0
         return bool(v)
@@ -1062,6 +1066,11 @@ class Exec:
                 return ExternalRef(getattr(builtins, name), name)
             if name in self.specs:
                 return SpecRef(name, self.specs[name])
+            if self.pure:
+                # contract clauses may name any class of the package
+                hits = [(m, m.classes[name]) for m in self.repo.all_modules() if name in m.classes]
+                if len(hits) == 1:
+                    return ClassRef(name, hits[0][0], hits[0][1])
             raise Unsupported(f"unresolved name {name} in {mod.name}")
         kind = r[0]
         if kind == "func":
@@ -1606,6 +1615,13 @@ class Exec:
 
     def call_repo_function(self, fref, args, kwargs, self_val, frame):
         target = self.target_of(fref)
+        mname = getattr(fref.node, "name", None)
+        if mname in self.contract.opaque_methods and target != self.contract.target:
+            # dynamic dispatch on AST nodes (DESIGN 2.3 (d)): an opaque effectful call
+            self.trace_event("call", mname, tuple(args[1:] if self_val is not None else args))
+            self.used_intrinsics.add(f"dynamic dispatch {mname}(): opaque call (any subclass), result unconstrained; recorded in the ghost call trace")
+            rt = self.contract.opaque_methods[mname]
+            return rt.fresh(self, f"{mname}_result") if rt is not None else None
         # decorators
         decos = [] if isinstance(fref.node, ast.Lambda) else fref.node.decorator_list
         handled = self.intr.apply_decorators(fref, decos, args, kwargs, self_val, frame)
@@ -1744,6 +1760,8 @@ class Exec:
                 n.orig = getattr(v, "orig", v)
                 memo[id(v)] = n
                 return n
+            if isinstance(v, Tagged):
+                return v
             if isinstance(v, tuple):
                 return tuple(cp(x) for x in v)
             return v
